@@ -122,6 +122,15 @@ MUTS = {
 		s.state |= mask'''),
  'H3-allowed-de-morgan': ('features.go', 'return state&f.Necessary == f.Necessary && state&f.Prohibited == 0', 'return !(state&f.Necessary != f.Necessary || state&f.Prohibited != 0)'),
  'H4-ready-guard-reordered': ('features.go', 'if !list.req && rw == nil {', 'if rw == nil && !list.req {'),
+ # ---- round C (error-value kinds, probe facts); H8 = benign/C04-1 (helper extraction) is a patch file, see DESIGN-notes/C04.md
+ 'N15-timeout-replaced-by-ctx-err': ('session.go', '\t\tif err != nil {\n\t\t\treturn s, err\n\t\t}\n\t\t// A step that does not touch', '\t\tif err != nil {\n\t\t\tvar netErr net.Error\n\t\t\tif errors.As(err, &netErr) && netErr.Timeout() {\n\t\t\t\terr = ctx.Err()\n\t\t\t}\n\t\t\treturn s, err\n\t\t}\n\t\t// A step that does not touch'),
+ 'N16-canceled-left-to-ctx-check': ('session.go', '\t\tif err != nil {\n\t\t\treturn s, err\n\t\t}\n\t\t// A step that does not touch', '\t\tif err != nil && !errors.Is(err, context.Canceled) {\n\t\t\treturn s, err\n\t\t}\n\t\t// A step that does not touch'),
+ 'N17-temporary-error-retried': ('session.go', '\t\tif err != nil {\n\t\t\treturn s, err\n\t\t}\n\t\t// A step that does not touch', '\t\tif ne, ok := err.(net.Error); ok && ne.Temporary() && !ne.Timeout() {\n\t\t\tcontinue\n\t\t}\n\t\tif err != nil {\n\t\t\treturn s, err\n\t\t}\n\t\t// A step that does not touch'),
+ 'N18-eof-of-a-step-is-clean': ('session.go', '\t\tif err != nil {\n\t\t\treturn s, err\n\t\t}\n\t\t// A step that does not touch', '\t\tif err == io.EOF {\n\t\t\terr = nil\n\t\t}\n\t\tif err != nil {\n\t\t\treturn s, err\n\t\t}\n\t\t// A step that does not touch'),
+ 'N19-watcher-write-deadline-only': ('session.go', 'conn.SetDeadline(aLongTimeAgo)', 'conn.SetWriteDeadline(aLongTimeAgo)'),
+ 'N20-past-deadline-an-instant-for-deadline-contexts': ('session.go', '\t\t\tconn.SetDeadline(aLongTimeAgo)\n\t\t\t<-cancelCtx.Done()', '\t\t\tconn.SetDeadline(aLongTimeAgo)\n\t\t\tif _, has := ctx.Deadline(); !has {\n\t\t\t\t<-cancelCtx.Done()\n\t\t\t}'),
+ 'H6-two-setters-instead-of-one': ('session.go', '\t\t\tconn.SetDeadline(aLongTimeAgo)\n\t\t\t<-cancelCtx.Done()\n\t\t\t/* #nosec */\n\t\t\tconn.SetDeadline(time.Time{})', '\t\t\tconn.SetWriteDeadline(aLongTimeAgo)\n\t\t\tconn.SetReadDeadline(aLongTimeAgo)\n\t\t\t<-cancelCtx.Done()\n\t\t\t/* #nosec */\n\t\t\tconn.SetReadDeadline(time.Time{})\n\t\t\tconn.SetWriteDeadline(time.Time{})'),
+ 'H7-switch-after-negotiator-call': ('session.go', '\t\tif err != nil {\n\t\t\treturn s, err\n\t\t}\n\t\t// A step that does not touch the connection does not notice that the context\n\t\t// is done: never report a session as established after that.\n\t\tif err = ctx.Err(); err != nil {\n\t\t\treturn s, err\n\t\t}', '\t\tswitch {\n\t\tcase err != nil:\n\t\t\treturn s, err\n\t\tcase ctx.Err() != nil:\n\t\t\treturn s, ctx.Err()\n\t\t}'),
 }
 
 def sh(cmd, cwd, timeout=1800):
